@@ -616,6 +616,24 @@ def snapshot_kinds():
         pt.compute_caps()
         return pt
 
+    import functools
+
+    @functools.lru_cache(maxsize=None)
+    def lop_list(v):
+        return [herm(v), sz.astype(complex)]
+
+    @functools.lru_cache(maxsize=None)
+    def gam_list(v):
+        return [lambda t, v=v: 0.2 * v]
+
+    @functools.lru_cache(maxsize=None)
+    def sys_list(v):
+        return [oqupy.TimeDependentSystemWithField(lambda t, a, v=v: h0 + 0.3 * v * sz)]
+
+    def mf_free(mfs):
+        return np.array(oqupy.compute_dynamics_with_field(mfs, 0.2 + 0j, initial_state_list=[rho(1)], dt=0.1, num_steps=2,
+                                                          progress_type="silent").system_dynamics[0].states)
+
     def dyn(r):
         d = oqupy.Dynamics(times=[0.0], states=[r])
         d.add(0.1, r)
@@ -640,6 +658,12 @@ def snapshot_kinds():
         "SimpleProcessTensor.set_mpo_tensor": (deph, spt, lambda pt: np.array(oqupy.compute_dynamics(
             oqupy.System(h0), initial_state=rho(1), process_tensor=pt, progress_type="silent").states)),
         "Dynamics(states)": (rho, dyn, lambda d: np.array(d.states)),
+        # list arguments: the caller keeps the list and replaces its elements (one list re-used across a sweep)
+        "System(gammas: list)": (lambda v: [0.2 * v, 0.1], lambda g: oqupy.System(h0, gammas=g, lindblad_operators=[sx - 1j * sy, sz]), free),
+        "System(lindblad_operators: list)": (lop_list, lambda l: oqupy.System(h0, gammas=[0.4, 0.1], lindblad_operators=l), free),
+        "TimeDependentSystem(gammas: list)": (gam_list, lambda g: oqupy.TimeDependentSystem(
+            lambda t: h0, gammas=g, lindblad_operators=[lambda t: sx - 1j * sy]), free),
+        "MeanFieldSystem(system_list)": (sys_list, lambda l: oqupy.MeanFieldSystem(l, field_eom=lambda t, st, a: -0.5j * a), mf_free),
     }
 
 
@@ -656,10 +680,19 @@ def snapshot_job(job):
                     return [{"what": "harness", "detail": "%s: versions %d and %d give the same result" % (kind, a, b)}]
         buf = content(1).copy()
         cur = 1
+
+        def same(x, y):
+            if isinstance(x, list):
+                return len(x) == len(y) and all(a is b or (isinstance(a, np.ndarray) and np.array_equal(a, b)) or
+                                                (isinstance(a, float) and a == b) for a, b in zip(x, y))
+            return np.array_equal(x, y)
         objs = []
         for i, h in enumerate(case["hist"]):
             if h["op"] == "write":
-                buf[...] = content(h["arg"])
+                if isinstance(buf, list):
+                    buf[:] = content(h["arg"])
+                else:
+                    buf[...] = content(h["arg"])
                 cur = h["arg"]
                 continue
             if h["op"] == "build":
@@ -672,7 +705,7 @@ def snapshot_job(job):
                                 "object-reflects-wrong-contents", "operation": i, "expected_version": h["obs"],
                                 "observed_versions": refl})
                     break
-            if not np.array_equal(buf, content(cur)):
+            if not same(buf, content(cur)):
                 out.append({"what": "callers-array-modified", "operation": i, "op": h["op"]})
                 break
     except Exception as ex:  # pylint: disable=broad-except
@@ -902,7 +935,8 @@ def run(ctx):
     skinds = ["Tempo(initial_state)", "MeanFieldTempo(initial_state_list)", "TwoTimeBathCorrelations(initial_state)",
               "Control.add_single", "ChainControl.add_single_site_control", "System(hamiltonian)", "System(lindblad_operators)",
               "Bath(coupling_operator)", "SystemChain.add_*", "AugmentedMPS(gammas)", "SimpleProcessTensor.set_mpo_tensor",
-              "Dynamics(states)"]
+              "Dynamics(states)", "System(gammas: list)", "System(lindblad_operators: list)", "TimeDependentSystem(gammas: list)",
+              "MeanFieldSystem(system_list)"]
     sjobs = [(c, k) for ki, k in enumerate(skinds) for ci, c in enumerate(scases) if not quick or (ci + ki) % 3 == 0]
     for (c, k), mm in zip(sjobs, core.pmap(snapshot_job, sjobs, chunksize=4)):
         hd = [[h["op"], h["arg"]] for h in c["hist"]]
